@@ -96,12 +96,18 @@ def splitLast (impl : String) : Option (String × Nat) :=
   | m :: rest => (nat? m).map fun n => (" ".intercalate rest.reverse, n)
   | [] => none
 
-/-- compare the class text exactly and the real peak request against the model's allocation -/
-def judge (cls : String) (alloc len : Nat) (impl : String) : Verdict :=
+/-- compare the class text exactly and the real peak request against the model's allocation.
+`refusalIsSpec`: the line is about a frame header, where the property itself fixes the refusal
+(`msg_len` above the limit ⇒ `TooLargeReadErr` before anything is allocated): "model refuses,
+implementation does not" is then a concrete failing input (`fail`), not a model disagreement -/
+def judge (cls : String) (alloc len : Nat) (impl : String) (refusalIsSpec : Bool := false) : Verdict :=
   match splitLast impl with
   | none => .unknown
   | some (icls, maxreq) =>
-    if icls ≠ cls then .diff s!"{cls} alloc={alloc}"
+    if icls ≠ cls then
+      if refusalIsSpec && (cls.endsWith "TooLargeReadErr") then
+        .fail s!"{cls} alloc={alloc} (the announced length is above the limit for this type: the frame must be refused at the header)"
+      else .diff s!"{cls} alloc={alloc}"
     else if maxreq > alloc + 16 * len + 1024 then .fail s!"{cls} alloc={alloc} (real request {maxreq} exceeds alloc+16*len+1024)"
     else .ok
 
@@ -219,7 +225,7 @@ def handle (st : St) (args : List String) (impl : String) : St × Verdict :=
     match parseRdr rd, nat? ver, parseHex hex with
     | some rd, some ver, some bs =>
       match runDec d rd ver bs with
-      | some (cls, alloc) => (st, judge cls alloc bs.length impl)
+      | some (cls, alloc) => (st, judge cls alloc bs.length impl (d.startsWith "hdr"))
       | none => (st, .unknown)
     | _, _, _ => (st, .unknown)
   | ["hex", s] =>
@@ -236,6 +242,16 @@ def handle (st : St) (args : List String) (impl : String) : St × Verdict :=
         | .err _ _ => "err"
         | .panic _ _ => "panic"
       (st, judge cls o.alloc bs.length impl)
+    | none => (st, .unknown)
+  | ["rmsg", "hand", stream] =>
+    -- `msg::read_message::<Hand>` straight on the stream (handshake path, `read_discard` for unknown types)
+    match parseHex stream with
+    | some bs =>
+      let o := readMessage netAutomatedTesting GV.Gen.Msg.T_Hand (decHand .bin) bs
+      let cls := match o.res with
+        | .ok _ => "ok"
+        | .error e => "err " ++ e.name
+      (st, judge cls o.alloc bs.length impl true)
     | none => (st, .unknown)
   | ["bound", _d, k, len] =>
     match nat? k, nat? len, splitLast impl with
